@@ -40,6 +40,15 @@ structure Step (Addr Val : Type) where
   /-- the effect on `writes` depends only on the values at `reads ++ writes` -/
   loc : ∀ (m m' : Mem Addr Val), (∀ a, a ∈ reads ++ writes → m a = m' a) → ∀ a, a ∈ writes → run m a = run m' a
 
+/-- the step "put `f m a` at every address `a ∈ ws`", where `f` looks only at `rs ++ ws` -/
+def Step.ofFun {Addr Val : Type} [DecidableEq Addr] (rs ws : List Addr) (f : Mem Addr Val → Addr → Val)
+    (hf : ∀ m m' : Mem Addr Val, (∀ a, a ∈ rs ++ ws → m a = m' a) → ∀ a, a ∈ ws → f m a = f m' a) : Step Addr Val where
+  run m := fun a => if a ∈ ws then f m a else m a
+  reads := rs
+  writes := ws
+  frame := by intro m a ha; simp [ha]
+  loc := by intro m m' h a ha; simp only [ha, if_true]; exact hf m m' h a ha
+
 variable {Addr Val : Type}
 
 /-- everything the step may touch -/
